@@ -707,6 +707,14 @@ func (s SeqSpec) String() string {
 	return s.Lit
 }
 
+// StaleFile puts n bytes of old content at path, so that a writer under test has to replace an existing,
+// longer file rather than create a fresh one (overwriting is what a caller's second Write to a path does).
+func StaleFile(path string, n int) {
+	const line = "stale content of an earlier, longer file that the writer has to replace\n"
+	b := bytes.Repeat([]byte(line), n/len(line)+1)
+	_ = os.WriteFile(path, b, 0o644)
+}
+
 // EdgeSizes lists the sizes in [lo, hi] at which buffer, block, line-width and integer-width slips
 // show: the ends of the range, powers of two and of ten, multiples of 1024, 4096 and 65536, multiples of
 // the line widths 60, 70 and 80 (the first few, and the last ones below hi and below each power of two),
